@@ -35,7 +35,7 @@ ANCHOR_FILES = [
 RULE = (
     "geometry cases: seeded matrix shape class{square even/odd, tall, wide, mixed parity, tiny 6..9} x scan-angle class{0,90,180,270,random "
     "in [0,360), per-image different angles} x pad class{0, 0.1, 0.25, 0.5, random 0..0.5}, stacks of 2..4 images, KDE sigma 0.3..2, every case "
-    "preprocessed with 1, 2, 3 and 4 knots and followed by a history on the same object (3..5 of: warp_image with upsample_factor 2/3, "
+    "preprocessed with 1, 2, 3 and 4 knots and followed by a history on the same object (2..4 of: warp_image with upsample_factor 2/3, "
     "generate_corrected_image, plain warp_image, repeated transform_coordinates) with closed form, weights and previously returned arrays re-checked after every step; fixed-point cases: identical stacks of 2..4 x upsample_factor{1,2,3,4,5,7,8,16} x knots{1..4} x "
     "angle class x image family{uniform noise, zero-mean noise, blobs+noise, band-limited}. non-trivial = rows != cols or angle not a "
     "multiple of 90 degrees; distinct = (kind, shape class, angle class, pad class | upsample factor, knots, family)"
@@ -255,7 +255,7 @@ def _object_history(ctx, rng, dc, shape, canvas, angles, sigma, common, returned
     generation, plain warps and repeated coordinate evaluations in random order; geometry and weights re-checked after each."""
     n = len(angles)
     ops = ["warp_upsampled", "generate_corrected_image", "warp_plain", "coords_again", "warp_upsampled"]
-    order = ["warp_upsampled"] + [ops[k] for k in rng.permutation(len(ops))][: int(rng.integers(2, 5))]
+    order = ["warp_upsampled"] + [ops[k] for k in rng.permutation(len(ops))][: int(rng.integers(1, 4))]
     done = []
     for op in order:
         done.append(op)
